@@ -169,6 +169,9 @@ type CertCase struct {
 	// KeyExp: when > 0, the subject is the RSA subject key's modulus under this public exponent (only
 	// for certificates issued by another key: no private key is needed for the subject)
 	KeyExp int64
+	// UniqueIDs: 0 = none; 1 = issuerUniqueID, 2 = subjectUniqueID, 3 = both are written into the body in front of the
+	// extensions (legal in version 2 / 3 certificates; crypto/x509 never emits them but reads past them)
+	UniqueIDs int `json:",omitempty"`
 	// ExtOrder: 0 = the order crypto/x509 emits; otherwise the seed of a permutation of the extensions
 	ExtOrder int
 }
@@ -321,6 +324,9 @@ func genCert(t *rapid.T) CertCase {
 		c.Vendor = append(c.Vendor, v)
 	}
 	c.Trailing = rapid.SliceOfN(rapid.Byte(), 1, 4).Draw(t, "trailing")
+	if rapid.IntRange(0, 7).Draw(t, "uniqueIDs") == 5 {
+		c.UniqueIDs = rapid.IntRange(1, 3).Draw(t, "uniqueIDsWhich")
+	}
 	if rapid.Bool().Draw(t, "permuteExts") {
 		c.ExtOrder = rapid.IntRange(1, 1<<20).Draw(t, "extOrder")
 	}
@@ -555,6 +561,19 @@ func execCert(c CertCase) (vh.Outcome, error) {
 		out.Classes = append(out.Classes, "encoder-refused")
 		return out, nil
 	}
+	if c.UniqueIDs != 0 {
+		var iss, sub []byte
+		if c.UniqueIDs&1 != 0 {
+			iss = []byte("issuer-unique-id")
+		}
+		if c.UniqueIDs&2 != 0 {
+			sub = []byte{0xde, 0xad, 0xbe, 0xef}
+		}
+		if d2, ok := vh.AddUniqueIDs(der, iss, sub); ok {
+			der = d2
+			out.Classes = append(out.Classes, "unique-identifiers")
+		}
+	}
 	std, err := x509.ParseCertificate(der)
 	if err != nil {
 		out.Classes = append(out.Classes, "std-refused")
@@ -620,7 +639,7 @@ func execCert(c CertCase) (vh.Outcome, error) {
 
 func TestC16ParseAgree(t *testing.T) {
 	vh.Run(t, vh.Spec[CertCase]{Property: "C16", Name: "TestC16ParseAgree",
-		Rule: "certificates from x509.CreateCertificate: RSA 1024..2048 (3072/4096 in thorough; sizes not divisible by 8; public exponent 65537 or, for issued certificates, 3 / 17 / 65539 / 2^31-1 / 2^31 / 2^32+1 / 2^40+15 / 2^62+1) and P-256/384/521 subject keys; self-signed or issued by RSA / ECDSA CAs with PKCS#1, PSS and ECDSA signature algorithms; serials to 20 bytes; names with UTF-8 attributes; validity 1950..9999 incl. the UTCTime/GeneralizedTime edge; basic constraints, key usage, key ids, SAN dns/email/ip, EKU known+unknown, policies, vendor OIDs 1.3.6.1.4.1.41482.3.x critical or not (serial extension well-formed or arbitrary); half of the certificates carry their extensions in a permuted (or reversed) order. Oracle: crypto/x509 accepts => lenient parser accepts and agrees on Raw, RawTBS, SPKI, names (raw and parsed), key, signature, algorithms, serial, validity, version, extension list; DER+trailing bytes refused, also when the trailing bytes are a complete certificate; NULL-less RSA variant (lengths rewritten) accepted with the same fields; ModHex of the parsed certificate judged by the reference rendering. Non-trivial: >=2 extensions or a NULL-less variant.",
+		Rule: "certificates from x509.CreateCertificate: RSA 1024..2048 (3072/4096 in thorough; sizes not divisible by 8; public exponent 65537 or, for issued certificates, 3 / 17 / 65539 / 2^31-1 / 2^31 / 2^32+1 / 2^40+15 / 2^62+1) and P-256/384/521 subject keys; self-signed or issued by RSA / ECDSA CAs with PKCS#1, PSS and ECDSA signature algorithms; serials to 20 bytes; names with UTF-8 attributes; validity 1950..9999 incl. the UTCTime/GeneralizedTime edge; basic constraints, key usage, key ids, SAN dns/email/ip, EKU known+unknown, policies, vendor OIDs 1.3.6.1.4.1.41482.3.x critical or not (serial extension well-formed or arbitrary); half of the certificates carry their extensions in a permuted (or reversed) order; an eighth carry issuerUniqueID and / or subjectUniqueID in front of the extensions (rewritten DER; the signature is not renewed - neither parser looks at it). Oracle: crypto/x509 accepts => lenient parser accepts and agrees on Raw, RawTBS, SPKI, names (raw and parsed), key, signature, algorithms, serial, validity, version, extension list; DER+trailing bytes refused, also when the trailing bytes are a complete certificate; NULL-less RSA variant (lengths rewritten) accepted with the same fields; ModHex of the parsed certificate judged by the reference rendering. Non-trivial: >=2 extensions or a NULL-less variant.",
 		Gen:  genCert, Exec: execCert})
 }
 
